@@ -114,7 +114,7 @@ def states_for(mt, kind="tree", cap=16):
     q0 = np.array(mt.qpos0, float)
     if kind == "contact":
         qs = []
-        disp = [(0.0, 0.0, 0.0), (0.003, -0.002, 0.004), (0.0, 0.0, -0.006), (0.002, 0.001, 0.03)]
+        disp = [(0.0, 0.0, 0.0), (0.003, -0.002, 0.0035), (0.0, 0.0, -0.006), (0.002, 0.001, 0.03)]
         tilt = [np.array([1.0, 0, 0, 0]), np.array([0.9987502603949663, 0.03, -0.04, 0.0])]
         for k in range(len(disp) * len(tilt)):
             q = q0.copy()
